@@ -107,6 +107,14 @@ structure MPointS where
   geoshapes : List PointS
   bounds : Except String (Rat × Rat × Rat × Rat)
 
+/-- iterating a JSON value as Python does: a list gives its items, a string its characters, a dict its keys; anything
+    else is a `TypeError` -/
+def jIter : J → Except String (List J)
+  | .arr xs => .ok xs
+  | .str s => .ok (s.toList.map fun c => J.str (String.singleton c))
+  | .obj kvs => .ok (kvs.map fun kv => J.str kv.1)
+  | _ => .error "ERR:Type"
+
 /-- any shape, for `to_geojson` and the time fields: `dt`, `_properties`, and `to_geo_interface(**kwargs)` (dispatched
     on the class) -/
 structure ShapeS where
@@ -135,6 +143,8 @@ def unit():
                        repo('coordinates.py'), os.path.join(os.path.dirname(repo('x')), 'utils', 'functions.py')])
     B4 = 'Tuple4 R'
     KW = ('kwargs', 'GjKw')
+    IMPORT_PARAMS = [('cls', 'None'), ('gjson', 'JObj'), ('time_start_property', 'Str'), ('time_end_property', 'Str'),
+                     ('time_format', 'None')]
     RINGS = 'List List Pos'
     insts = [
         # --- ring orientation
@@ -183,13 +193,15 @@ def unit():
         Inst('get_dt_from_geojson_props', 'getDtFromGeojsonProps',
              [('rec', 'JObj'), ('time_start_field', 'Str'), ('time_end_field', 'Str'), ('time_format', 'None')],
              'Except Prod (Opt TI) JObj', state=['rec'], doc='the result and `rec` after the call'),
+        # --- the importers
+        Inst('GeoPoint.from_geojson', 'pointFromGeoJson', IMPORT_PARAMS, 'Except ShapeT'),
     ]
     METHODS = {}
     for i in insts:
         if i.params and i.params[0][0] == 'self' and i.params[0][1] != 'None':
             METHODS[(i.params[0][1], i.qual.split('.')[-1])] = i
     for t, lt in (('Pos', 'GV.GeoJson.Pos'), ('HoleSrc', 'GV.GeoJson.HoleSrc'), ('J', 'GV.GeoJson.J'), ('JObj', 'GV.GeoJson.Obj'),
-                  ('Str', 'String'), ('GjKw', 'Kw'), ('Nat', 'Nat')):
+                  ('Str', 'String'), ('GjKw', 'Kw'), ('Nat', 'Nat'), ('ShapeT', 'GV.GeoJson.Shape')):
         py2lean.LEAN_TYPE.setdefault(t, lt)
     # the receiver records are declared in the generated file's header
     for t, lt in (('GjPolygon', 'PolygonS'), ('GjBox', 'BoxS'), ('GjCurved', 'CurvedS'), ('GjRing', 'RingS'), ('GjLine', 'LineS'),
@@ -227,6 +239,9 @@ def unit():
     def eq_hook(tr, a, b):
         if a.typ == b.typ and a.typ in ('Str', 'Opt R'):
             return Val(f'({a.text} == {b.text})', 'Bool')
+        if a.typ == 'J' and b.typ == 'Str':
+            x = tr.gensym('s')
+            return Val(f'(match {a.text} with | GV.GeoJson.J.str {x} => {x} == {b.text} | _ => false)', 'Bool')
         return None
 
     def truth_hook(tr, v):
@@ -263,7 +278,7 @@ def unit():
 
     def call_hook(tr, e):
         f = e.func
-        if isinstance(f, ast.Name) and f.id == 'Coordinate':
+        if isinstance(f, ast.Name) and f.id == 'Coordinate' and e.args:
             args = [tr.expr(a) for a in e.args]
             kws = {k.arg: k.value for k in e.keywords}
             if len(args) != 2 or any(a.typ != 'R' for a in args) or not set(kws) <= {'z', '_bounded'}:
@@ -281,8 +296,49 @@ def unit():
                 return Val(f'(GV.GeoJson.Pos.mk {args[0].text} {args[1].text} {z})', 'Pos')
             ll = f'(GV.normalize true {args[0].text} {args[1].text})'
             return Val(f'(GV.GeoJson.Pos.mk {ll}.1 {ll}.2 {z})', 'Pos')
+        if isinstance(f, ast.Name) and f.id == 'Coordinate' and not e.args and len(e.keywords) == 1 and e.keywords[0].arg is None:
+            # `Coordinate(**dict(zip(('longitude', 'latitude', 'z'), x)))`: the model's `posOfJ` (constructor: C08's subject)
+            inner = e.keywords[0].value
+            ok = (isinstance(inner, ast.Call) and ast.unparse(inner.func) == 'dict' and len(inner.args) == 1 and not inner.keywords
+                  and isinstance(inner.args[0], ast.Call) and ast.unparse(inner.args[0].func) == 'zip' and len(inner.args[0].args) == 2
+                  and ast.unparse(inner.args[0].args[0]) == "('longitude', 'latitude', 'z')")
+            x = tr.expr(inner.args[0].args[1]) if ok else None
+            if not ok or x.typ != 'J':
+                raise Unsupported(f'`{ast.unparse(e)[:80]}`: only the (longitude, latitude, z) keyword spread of a JSON position is read')
+            r = Val(f'(GV.GeoJson.posOfJ {x.text})', 'Pos')
+            r.raises = True
+            return r
+        if isinstance(f, ast.Name) and f.id in src.defs and any(i.state for i in insts if i.qual == f.id) and not e.keywords:
+            # a function that mutates a dict it is handed: only a dict made in this function may be handed over
+            args = [tr.expr(a) for a in e.args]
+            inst = tr.u.find(f.id, tuple(a.typ for a in args))
+            names = [p for p, _t in inst.params]
+            for sname in inst.state:
+                a_node, a_val = e.args[names.index(sname)], args[names.index(sname)]
+                if not (isinstance(a_node, ast.Name) and getattr(a_val, 'fresh_dict', False)):
+                    raise Unsupported(f'`{tr.inst.qual}`: `{f.id}` mutates `{ast.unparse(a_node)}`, which is not a dict made in this function')
+            call = ' '.join([inst.lean] + [n for n, _t in tr.u.ctx_params] + [_paren(a.text) for a, (_n, t) in zip(args, inst.params) if t != 'None'])
+            r = tr.gensym('r')
+            tr.pending.append((r, f'({call})'))
+            for k_, sname in enumerate(inst.state):
+                a_node = e.args[names.index(sname)]
+                proj = f'{r}.2' if len(inst.state) == 1 else None
+                if proj is None:
+                    raise Unsupported('several mutated parameters')
+                nv = Val(proj, 'JObj', path=a_node.id)
+                nv.fresh_dict = True
+                tr.env[a_node.id] = nv
+            return Val(f'{r}.1', py2lean._prod_parts(inst.value_type)[0])
+        if isinstance(f, ast.Name) and f.id in CTORS:
+            return CTORS[f.id](tr, e)
         if isinstance(f, ast.Name) and f.id == 'dict' and len(e.args) == 1 and not e.keywords:
             v = tr.expr(e.args[0])
+            if v.typ == 'J':
+                p_ = tr.gensym('p')
+                r = Val(f'(match {v.text} with | GV.GeoJson.J.obj {p_} => Except.ok {p_} | _ => Except.error "ERR:Type")', 'JObj')
+                r.raises = True                    # `dict(x)` of a non-dict (the importers only meet it on malformed input)
+                r.fresh_dict = True
+                return r
             if v.typ != 'JObj':
                 raise Unsupported(f'dict() of {v.typ}')
             r = Val(v.text, 'JObj')                  # a new dict with the same entries
@@ -294,6 +350,52 @@ def unit():
                 return r
         if e.keywords:
             raise Unsupported(f'`{tr.inst.qual}`: keyword arguments in `{ast.unparse(e)[:80]}`')
+        return None
+
+    def ctor_shape(geom_of):
+        """`Cls(x, dt=dt, properties=properties)`: the imported shape (the model's `Shape`); `Cls(x)`: a member"""
+        def f(tr, e):
+            kws = {k.arg: k.value for k in e.keywords}
+            if len(e.args) != 1 or not set(kws) <= {'dt', 'properties', 'holes'}:
+                raise Unsupported(f'`{ast.unparse(e)[:80]}`')
+            return geom_of(tr, e, tr.expr(e.args[0]), kws)
+        return f
+
+    def shape_of(tr, geom_text, kws):
+        dt, props = tr.expr(kws['dt']), tr.expr(kws['properties'])
+        if dt.typ not in ('Opt TI',) or props.typ != 'JObj':
+            raise Unsupported(f'shape constructor with dt: {dt.typ}, properties: {props.typ}')
+        return Val(f'(GV.GeoJson.Shape.mk {geom_text} {dt.text} {props.text})', 'ShapeT')
+
+    def point_ctor(tr, e, x, kws):
+        if x.typ != 'Pos' or 'holes' in kws:
+            raise Unsupported(f'GeoPoint({x.typ})')
+        if not kws:
+            return Val(f'(PointS.mk {x.text})', 'GjPoint')
+        return shape_of(tr, f'(GV.GeoJson.SGeom.point {x.text})', kws)
+
+    CTORS = {'GeoPoint': ctor_shape(point_ctor)}
+
+    def j_default(node):
+        if node is None or (isinstance(node, ast.Constant) and node.value is None):
+            return 'GV.GeoJson.J.null'
+        if isinstance(node, ast.Dict) and not node.keys:
+            return '(GV.GeoJson.J.obj [])'
+        if isinstance(node, ast.List) and not node.elts:
+            return '(GV.GeoJson.J.arr [])'
+        raise Unsupported(f'default `{ast.unparse(node)}` of a dict lookup')
+
+    def or_dict(tr, v):
+        # `x or {}` where x is a JSON value
+        if v.typ != 'J':
+            raise Unsupported(f'`… or {{}}` on {v.typ}')
+        return Val(f'(if ({v.text}).truthy then {v.text} else GV.GeoJson.J.obj [])', 'J')
+
+    def iter_hook(tr, xs):
+        if xs.typ == 'J':
+            r = tr.gensym('r')
+            tr.pending.append((r, f'(jIter {xs.text})'))
+            return Val(r, 'List J')
         return None
 
     def const_key(node, allowed):
@@ -343,6 +445,18 @@ def unit():
                 tr.env[name] = Val(f'({{ {recv.text} with {fld} := {"none" if fld == "k" else "false"} }} : Kw)', 'GjKw', path=name)
                 return Val(f'{recv.text}.{fld}', 'Opt Nat' if fld == 'k' else 'Bool')
             raise Unsupported(f'`{tr.inst.qual}`: `{ast.unparse(e)[:80]}` on the keyword dictionary')
+        if t in ('JObj', 'J') and m == 'get' and not e.keywords and len(e.args) in (1, 2):
+            key = tr.expr(e.args[0])
+            if key.typ != 'Str':
+                raise Unsupported(f'dict lookup with a key of type {key.typ}')
+            dflt = j_default(e.args[1] if len(e.args) == 2 else None)
+            if t == 'JObj':
+                return Val(f'((GV.GeoJson.oget {recv.text} {key.text}).getD {dflt})', 'J')
+            g_ = tr.gensym('g')                 # a JSON value that is not a dict has no `.get` (AttributeError)
+            r = Val(f'(match {recv.text} with | GV.GeoJson.J.obj {g_} => Except.ok ((GV.GeoJson.oget {g_} {key.text}).getD {dflt}) '
+                    f'| _ => Except.error "ERR:Attr")', 'J')
+            r.raises = True
+            return r
         if t == 'JObj' and not e.keywords:
             if m == 'copy' and not e.args:
                 r = Val(recv.text, 'JObj')
@@ -404,6 +518,19 @@ def unit():
             r = Val(PINNED_BOUNDS[recv.typ].format(recv.text), B4)
             r.raises = True
             return r
+        if isinstance(e, ast.Subscript) and isinstance(e.slice, ast.Constant) and isinstance(e.slice.value, str) \
+                and isinstance(e.value, ast.Name) and e.value.id in tr.env and tr.env[e.value.id].typ in ('JObj', 'J'):
+            recv = tr.expr(e.value)
+            key = py2lean._lean_str(e.slice.value)
+            c_ = tr.gensym('c')
+            look = lambda g: f'(match GV.GeoJson.oget {g} {key} with | some {c_} => Except.ok {c_} | none => Except.error "ERR:Key")'
+            if recv.typ == 'JObj':
+                r = Val(look(recv.text), 'J')
+            else:
+                g_ = tr.gensym('g')             # subscripting a non-dict JSON value with a string: TypeError
+                r = Val(f'(match {recv.text} with | GV.GeoJson.J.obj {g_} => {look(g_)} | _ => Except.error "ERR:Type")', 'J')
+            r.raises = True
+            return r
         return None
 
     def sanitize(tr, args):
@@ -450,9 +577,10 @@ def unit():
                               'structures.py::PolygonBase.__init__')}
     hooks = {'isinstance': lambda typ: {'Pos': {'Coordinate'}}.get(typ), 'eq': eq_hook, 'truth': truth_hook, 'coerce': coerce_hook, 'to_j': to_j,
              'expr_stmt': expr_stmt, 'keywords': lambda tr, e: True, 'call': call_hook, 'init': init_hook, 'as_dict': as_dict,
-             'expr': expr_hook, 'local_fn': local_fn, 'always_truthy': ('TI', 'Dt')}
+             'expr': expr_hook, 'local_fn': local_fn, 'or_dict': or_dict, 'iter': iter_hook, 'always_truthy': ('TI', 'Dt')}
     return Unit('SrcGeoJson', src, 'GV.Src.GeoJson',
                 ['GeoVerif.Model.GeoJson', 'GeoVerif.Model.PyPrelude', 'GeoVerif.Gen.SrcTime'], insts,
                 classes, pins=pins, header=HEADER, attr_types=attr, hooks=hooks, externals=srcunits._time_externals(),
                 intrinsics={'sanitize_json': sanitize, 'datetime.fromisoformat': fromiso},
+                abstract={('JObj', '__contains__', ('Str',)): ('GV.GeoJson.ohas {0} {1}', 'Bool')},
                 ctx_params=[('rt', 'GV.GeoJson.Rt')])
